@@ -3,10 +3,11 @@
 From Coq Require Import ZArith NArith List Bool Lia.
 From NV Require Import Base.Bytes Isa.Codec Isa.CodecProofs gen.IsaTable Lang.Ast Lang.Ref Back.VmCompile Back.VmExec Back.OpTable
   Back.VmSimFetch Back.VmSimStep Back.VmSimComp Back.VmSimWf Back.VmSimEnv Back.VmSimDefs Back.VmSimExpr.
+Require NV.Back.Agree.
 Import ListNotations.
 
 Lemma print_same v : mval_print 8 (mval_of v) = print_value v.
-Proof. destruct v; reflexivity. Qed.
+Proof. exact (NV.Back.Agree.print_alike v). Qed.
 
 Lemma rpost_weaken {A} (P Q : A -> list N -> mres -> Prop) (r : res A) m :
   (forall a o, P a o m -> Q a o m) -> rpost P r m -> rpost Q r m.
@@ -220,7 +221,7 @@ Proof.
   eapply rpost_bind.
   { eapply (IHe genv en out ce p c1 p1 fn fe cf pos ret locs st cs g); try eassumption. inf. }
   intros v o1 m _ [-> Hv]; cbv iota beta.
-  destruct v as [z|[|]| |s]; cbn [rpost]; rt.
+  destruct v as [z|[|]| |s|l]; cbn [rpost]; rt.
   - vstep Hfe Hcode Hc step_assert_ok; [reflexivity|].
     apply Reach_here. exists locs. split; [same_state|]. split; [reflexivity|]. split; [exact Hme|apply keeps_refl].
   - at_code Hc. apply Reach_one. erewrite step_assert_fail; [reflexivity| |reflexivity].
@@ -267,7 +268,7 @@ Proof.
   eapply rpost_bind.
   { eapply (IHc genv en out ce p cc p1 fn fe cf pos ret locs st cs g); try eassumption; [inf|]. eapply pool_le_trans; eassumption. }
   intros vc o1 m _ [-> Hvc]; cbv iota beta.
-  destruct vc as [z|b| |s]; rt.
+  destruct vc as [z|b| |s|l]; rt.
   vstep Hfe Hcode Hjf step_jmp_false; [lia|]. cbn [mval_of truthy].
   destruct b.
   - (* then *)
@@ -309,7 +310,7 @@ Proof.
   { eapply (IHc genv en out ce p cc p1 fn fe cf pos ret locs st cs g); try eassumption; [inf|].
     eapply pool_le_trans; [eassumption|]. eapply pool_le_trans; eassumption. }
   intros vc o1 m _ [-> Hvc]; cbv iota beta.
-  destruct vc as [z|b| |s]; rt.
+  destruct vc as [z|b| |s|l]; rt.
   vstep Hfe Hcode Hjf step_jmp_false; [lia|]. cbn [mval_of truthy].
   destruct b.
   - (* then branch, followed by the jump over the else branch *)
